@@ -2,7 +2,7 @@
     headline lemmas (stated in Properties/C17.v). *)
 From Coq Require Import List ZArith NArith Bool Lia.
 From GL Require Import model.Blocks model.legacy.BlocksLegacy spec.AllocSet
-  proofs.C17_Bytes proofs.C17_Geometry proofs.C17_Count proofs.C17_Inv.
+  proofs.C17_Bytes proofs.C17_Geometry proofs.C17_Count proofs.C17_Inv proofs.C17_Grow.
 Import ListNotations.
 Open Scope Z_scope.
 
@@ -91,12 +91,12 @@ Qed.
 
 Lemma step_refines : forall page fit b o, inv page fit b ->
   inv page fit (fst (step page fit b o)) /\
-  sp_step (abs b) o = (abs (fst (step page fit b o)), snd (step page fit b o)).
+  sp_step fit (abs b) o = (abs (fst (step page fit b o)), snd (step page fit b o)).
 Proof.
   intros page fit b o I.
   pose proof (inv_bs_pos _ _ _ I) as Hbs. pose proof (inv_bis _ _ _ I) as Hbis.
   destruct (count_abs _ _ _ I) as [Hsc [Hc Hcpos]].
-  destruct o as [|idx|idx|idx v|idx k v| | | |]; cbn [step sp_step];
+  destruct o as [|idx|idx|idx v|idx k v| | | | |n]; cbn [step sp_step];
     change (sp_alloc (abs b)) with (alloc_list b).
   - (* ArrangeBlock *)
     destruct (arrange_spec _ _ _ I) as [[s1 [p1 [j [Hs1 [Hp1 [Hbefore [Hn [Hj Hres]]]]]]]]|[f' [Hf0 [Hf [Hall Hres]]]]];
@@ -108,8 +108,9 @@ Proof.
       rewrite (card_abs _ _ _ I), Hsc.
       destruct (Z.eqb_spec (blocks_count b - available b) (blocks_count b)) as [?|_]; [lia|].
       cbn [abs sp_alloc]. rewrite (lowest_free_abs _ _ _ i I Hi Hfree Hlow).
-      unfold sp_with, abs. cbn [sp_bs sp_segs sp_alloc].
+      unfold sp_with, abs. cbn [sp_bs sp_segs sp_alloc sp_size sp_hidden].
       rewrite (alloc_list_add _ _ b (arranged b s1 p1 j) i I) by (try reflexivity; assumption).
+      rewrite (hidden_list_flip _ _ b (arranged b s1 p1 j) i true I) by (try reflexivity; assumption).
       reflexivity.
     + destruct (with_free_inv_abs _ _ _ f' I Hf0 Hf Hall) as [I' Habs].
       split; [exact I'|]. rewrite Habs.
@@ -129,8 +130,9 @@ Proof.
     destruct (is_alloc b idx) eqn:Hal; cbn [fst snd].
     + destruct (freed_inv_abs _ _ _ idx I ltac:(lia) Hal) as [I' [Hflip Hav]].
       split; [exact I'|].
-      unfold sp_with, abs. cbn [sp_bs sp_segs sp_alloc].
+      unfold sp_with, abs. cbn [sp_bs sp_segs sp_alloc sp_size sp_hidden].
       rewrite (alloc_list_remove _ _ b (freed b idx) idx I) by (try reflexivity; try assumption; lia).
+      rewrite (hidden_list_flip _ _ b (freed b idx) idx false I) by (try reflexivity; try assumption; lia).
       reflexivity.
     + split; [exact I|reflexivity].
   - (* Block *)
@@ -146,7 +148,7 @@ Proof.
     destruct (data_write_inv _ _ b (fill (Z.to_nat (blkSize b)) (bts b) (boff (blkSize b) idx) v) I)
       as [I' Habs].
     + apply bsize_fill.
-    + apply fill_same_headers; assumption.
+    + intros n0. apply fill_same_headers; assumption.
     + split; [exact I'|]. unfold with_bts in Habs. rewrite Habs. reflexivity.
   - (* writing one byte of a block *)
     unfold poke_block. rewrite (block_spec _ _ _ idx I). unfold sp_valid. rewrite Hsc.
@@ -161,17 +163,27 @@ Proof.
     { split; [exact I|reflexivity]. }
     destruct (data_write_inv _ _ b (bset (bts b) (boff (blkSize b) idx + k) v) I) as [I' Habs].
     + apply bsize_bset.
-    + apply bset_same_headers; try assumption; lia.
+    + intros n0. apply bset_same_headers; try assumption; lia.
     + split; [exact I'|]. unfold with_bts in Habs. rewrite Habs. reflexivity.
-  - (* reopening the same bytes *)
+  - (* reopening: NewBlocks on the storage as it is now *)
     pose proof (ssz_pos _ Hbs) as Hss. pose proof (inv_segs _ _ _ I) as Hsegs.
-    assert (Hsz : ssz (blkSize b) <= bsize (bts b)).
-    { pose proof (inv_segs_fit _ _ _ I). nia. }
-    rewrite (new_blocks_ok page (blkSize b) (bts b) fit (inv_page _ _ _ I) (inv_bs _ _ _ I) Hsz (inv_fit _ _ _ I)).
-    cbn [fst snd]. split.
-    + apply opened_inv; [exact (inv_page _ _ _ I)|exact (inv_bs _ _ _ I)|exact Hsz|exact (inv_fit _ _ _ I)].
-    + unfold abs, opened, alloc_list. cbn [blkSize segments bts].
-      rewrite <- (inv_segs_eq _ _ _ I). reflexivity.
+    pose proof (inv_segs_fit _ _ _ I) as Hfit.
+    assert (Hsz : ssz (blkSize b) <= bsize (bts b)) by nia.
+    unfold sp_reopen. change (sp_ssz (abs b)) with (ssz (blkSize b)).
+    change (sp_size (abs b)) with (bsize (bts b)). change (sp_bs (abs b)) with (blkSize b).
+    change (sp_hidden (abs b)) with (hidden_list b).
+    destruct (new_blocks_spec page (blkSize b) (bts b) fit (inv_page _ _ _ I) ltac:(lia))
+      as [[Hv [_ [Hf E]]]|[Hbad E]]; rewrite E; cbn [fst snd].
+    + assert (Hfc : fit && negb (bsize (bts b) mod ssz (blkSize b) =? 0) = false).
+      { destruct fit; [|reflexivity]. rewrite Hf by reflexivity. reflexivity. }
+      rewrite Hfc. split; [apply opened_inv; [exact (inv_page _ _ _ I)|exact Hv|exact Hsz|exact Hf]|].
+      destruct (reopen_split (blkSize b) (segments b) (bts b) Hbs ltac:(lia) Hfit) as [H1 H2].
+      cbv zeta in H1, H2.
+      unfold abs, opened, alloc_list, hidden_list. cbn [blkSize segments bts].
+      rewrite H1, H2. reflexivity.
+    + destruct Hbad as [Hn|[Hlt|[Hft Hm]]]; [exfalso; exact (Hn (inv_bs _ _ _ I))|lia|].
+      subst fit. destruct (Z.eqb_spec (bsize (bts b) mod ssz (blkSize b)) 0) as [?|_]; [contradiction|].
+      cbn [andb negb]. split; [exact I|reflexivity].
   - (* Available *)
     cbn [fst snd]. split; [exact I|]. rewrite Hsc. cbn [abs sp_alloc].
     rewrite (card_abs _ _ _ I). do 2 f_equal. lia.
@@ -179,13 +191,19 @@ Proof.
     cbn [fst snd]. split; [exact I|]. rewrite Hsc. reflexivity.
   - (* Segments *)
     cbn [fst snd]. split; [exact I|]. reflexivity.
+  - (* Grow of the storage under the live allocator *)
+    change (sp_size (abs b)) with (bsize (bts b)).
+    destruct (Z.ltb_spec n (bsize (bts b))) as [Hlt|Hge]; cbn [fst snd].
+    + split; [exact I|reflexivity].
+    + destruct (grown_inv_abs _ _ b n I Hge) as [I' Habs]. unfold grown in I', Habs.
+      split; [exact I'|]. rewrite Habs. reflexivity.
 Qed.
 
 (** * Sequences *)
 
 Lemma run_refines : forall page fit ops b, inv page fit b ->
-  fst (run page fit b ops) = fst (sp_run (abs b) ops) /\
-  abs (snd (run page fit b ops)) = snd (sp_run (abs b) ops) /\
+  fst (run page fit b ops) = fst (sp_run fit (abs b) ops) /\
+  abs (snd (run page fit b ops)) = snd (sp_run fit (abs b) ops) /\
   inv page fit (snd (run page fit b ops)).
 Proof.
   intros page fit. induction ops as [|o t IH]; intros b I; cbn [run sp_run].
@@ -193,7 +211,7 @@ Proof.
   - destruct (step_refines page fit b o I) as [I' Hs].
     destruct (step page fit b o) as [b' x] eqn:Est. cbn [fst snd] in I', Hs. rewrite Hs.
     destruct (IH b' I') as [H1 [H2 H3]].
-    destruct (run page fit b' t) as [xs bf]. destruct (sp_run (abs b') t) as [ys sf].
+    destruct (run page fit b' t) as [xs bf]. destruct (sp_run fit (abs b') t) as [ys sf].
     cbn [fst snd] in *. subst. auto.
 Qed.
 
@@ -402,16 +420,71 @@ Qed.
 Lemma reachable_invariant : forall page fit b, reachable page fit b ->
   let bs := blkSize b in
   valid_bs page bs /\ blksInSegm b = 8 * bs /\ 1 <= segments b /\
-  segments b = bsize (bts b) / ssz bs /\
+  segments b * ssz bs <= bsize (bts b) /\
   0 <= freeIdx b /\
   (segments b * ssz bs <= freeIdx b \/ freeIdx b mod ssz bs < bs) /\
   (forall s p, 0 <= s < segments b -> 0 <= p < bs -> hdr_addr bs s p < freeIdx b ->
      bget (bts b) (hdr_addr bs s p) = 255%N).
 Proof.
   intros page fit b R bs. pose proof (reachable_inv _ _ _ R) as I.
-  destruct I as [I1 I2 I3 I4 I5 I6 [I7a I7b] I8 I9].
+  destruct I as [I1 I2 I3 I4 I5 [I7a I7b] I8 I9].
   split; [exact I2|]. split; [exact I3|]. split; [exact I4|]. split; [exact I5|].
   split; [exact I7a|]. split; [exact I7b|]. exact I8.
+Qed.
+
+(** * The allocator covers the whole storage ([tight]) until the storage is grown *)
+
+Definition is_grow (o : op) : bool := match o with OGrow _ => true | _ => false end.
+
+(* histories without a Grow of the storage under the live allocator *)
+Definition no_grow (ops : list op) : bool := forallb (fun o => negb (is_grow o)) ops.
+
+Lemma step_tight : forall page fit b o, inv page fit b -> tight fit b -> is_grow o = false ->
+  tight fit (fst (step page fit b o)).
+Proof.
+  intros page fit b o I T Hg. pose proof (inv_bs_pos _ _ _ I) as Hbs.
+  destruct o as [|idx|idx|idx v|idx k v| | | | |n]; cbn [step is_grow] in *; try exact T; try discriminate.
+  - destruct (arrange_spec _ _ _ I) as [[s1 [p1 [j [_ [_ [_ [_ [_ E]]]]]]]]|[f' [_ [_ [_ E]]]]];
+      cbv zeta in E; rewrite E; exact T.
+  - rewrite (free_spec _ _ _ idx I).
+    destruct (negb ((0 <=? idx) && (idx <? blocks_count b))); [exact T|].
+    destruct (is_alloc b idx); exact T.
+  - unfold write_block. destruct (block b idx); try exact T.
+    unfold tight. cbn [fst blkSize segments bts]. rewrite bsize_fill. exact T.
+  - unfold poke_block. destruct (block b idx); try exact T.
+    destruct ((k <? 0) || (len <=? k)); exact T.
+  - pose proof (inv_segs _ _ _ I) as Hsegs. pose proof (inv_segs_fit _ _ _ I) as Hfit.
+    pose proof (ssz_pos _ Hbs) as Hss.
+    destruct (new_blocks_spec page (blkSize b) (bts b) fit (inv_page _ _ _ I) ltac:(nia))
+      as [[_ [_ [Hf E]]]|[_ E]]; rewrite E; cbn [fst]; [apply opened_tight; exact Hf|exact T].
+Qed.
+
+Lemma run_tight : forall page fit ops b, inv page fit b -> tight fit b -> no_grow ops = true ->
+  tight fit (snd (run page fit b ops)).
+Proof.
+  intros page fit. induction ops as [|o t IH]; intros b I T Hn; cbn [run].
+  - exact T.
+  - cbn [no_grow forallb] in Hn. apply andb_true_iff in Hn. destruct Hn as [Ho Ht].
+    apply negb_true_iff in Ho.
+    pose proof (step_tight page fit b o I T Ho) as T'.
+    destruct (step_refines page fit b o I) as [I' _].
+    destruct (step page fit b o) as [b' x]. cbn [fst] in *.
+    specialize (IH b' I' T' Ht). destruct (run page fit b' t) as [xs bf]. exact IH.
+Qed.
+
+Lemma no_grow_firstn : forall n ops, no_grow ops = true -> no_grow (firstn n ops) = true.
+Proof.
+  induction n as [|n IH]; intros [|o t] H; cbn [firstn no_grow forallb] in *; try reflexivity.
+  apply andb_true_iff in H. destruct H as [H1 H2]. rewrite H1. exact (IH t H2).
+Qed.
+
+Lemma new_blocks_tight : forall page bs buf fit b0,
+  0 < page -> 0 <= bsize buf -> new_blocks page bs buf fit = CtorOk b0 -> tight fit b0.
+Proof.
+  intros page bs buf fit b0 Hp Hsz Hnew.
+  destruct (new_blocks_spec page bs buf fit Hp Hsz) as [[Hv [Hs [Hf E]]]|[_ E]];
+    rewrite E in Hnew; [|discriminate].
+  injection Hnew as <-. apply opened_tight. exact Hf.
 Qed.
 
 (** * The constructor *)
@@ -512,58 +585,133 @@ Qed.
 
 (** * The state lives in the bytes *)
 
-(** reopening the bytes of any reachable state gives an allocator with the same
-    allocated set and the same counters (only the hint restarts at 0) *)
-Lemma reopen_same : forall page fit b, reachable page fit b ->
+(** reopening the bytes of a reachable state whose allocator covers the storage
+    (no Grow since it was opened) gives an allocator with the same allocated
+    set and the same counters (only the hint restarts at 0) *)
+Lemma reopen_same : forall page fit b, reachable page fit b -> tight fit b ->
   exists b0, new_blocks page (blkSize b) (bts b) fit = CtorOk b0 /\
     reachable page fit b0 /\
     alloc_list b0 = alloc_list b /\ available b0 = available b /\
     blocks_count b0 = blocks_count b /\ segments b0 = segments b /\
     blkSize b0 = blkSize b /\ bts b0 = bts b /\ abs b0 = abs b.
 Proof.
-  intros page fit b R. pose proof (reachable_inv _ _ _ R) as I.
-  pose proof (step_refines page fit b OReopen I) as [I' Hs].
-  pose proof (reachable_step page fit b OReopen R) as R'.
-  cbn [step sp_step] in *.
-  destruct (new_blocks page (blkSize b) (bts b) fit) as [b0|e|] eqn:E; cbn [fst snd] in *;
-    try discriminate.
-  assert (Habs : abs b = abs b0) by (apply (f_equal fst) in Hs; exact Hs). clear Hs.
-  assert (Hnn : 0 <= bsize (bts b)).
-  { pose proof (inv_segs_fit _ _ _ I). pose proof (inv_segs _ _ _ I).
-    pose proof (ssz_pos _ (inv_bs_pos _ _ _ I)). nia. }
-  destruct (new_blocks_inv _ _ _ _ _ (inv_page _ _ _ I) Hnn E) as [-> _].
-  exists (opened (blkSize b) (bts b)). split; [reflexivity|]. split; [exact R'|].
+  intros page fit b R [Tsegs Tfit]. pose proof (reachable_inv _ _ _ R) as I.
+  pose proof (reachable_step page fit b OReopen R) as R'. cbn [step] in R'.
+  pose proof (inv_bs_pos _ _ _ I) as Hbs. pose proof (ssz_pos _ Hbs) as Hss.
+  assert (Hsz : ssz (blkSize b) <= bsize (bts b)).
+  { pose proof (inv_segs_fit _ _ _ I). pose proof (inv_segs _ _ _ I). nia. }
+  pose proof (new_blocks_ok page (blkSize b) (bts b) fit (inv_page _ _ _ I) (inv_bs _ _ _ I) Hsz Tfit) as E.
+  rewrite E in R'. cbn [fst] in R'.
+  exists (opened (blkSize b) (bts b)). split; [exact E|]. split; [exact R'|].
   assert (Hsegs : segments (opened (blkSize b) (bts b)) = segments b).
-  { unfold opened. cbn [segments]. symmetry. exact (inv_segs_eq _ _ _ I). }
+  { unfold opened. cbn [segments]. symmetry. exact Tsegs. }
   assert (Hal : alloc_list (opened (blkSize b) (bts b)) = alloc_list b).
   { unfold alloc_list. rewrite Hsegs. reflexivity. }
   split; [exact Hal|]. split.
   { rewrite (inv_avail _ _ _ I). unfold opened. cbn [available].
-    rewrite <- (inv_segs_eq _ _ _ I). reflexivity. }
+    rewrite <- Tsegs. reflexivity. }
   split.
   { unfold blocks_count. rewrite Hsegs. unfold opened. cbn [blksInSegm]. rewrite (inv_bis _ _ _ I). reflexivity. }
-  split; [exact Hsegs|]. split; [reflexivity|]. split; [reflexivity|]. symmetry. exact Habs.
+  split; [exact Hsegs|]. split; [reflexivity|]. split; [reflexivity|].
+  unfold abs, alloc_list, hidden_list. rewrite Hsegs. reflexivity.
 Qed.
 
-(** everything observable about a reachable state is a function of its block
-    size and bytes: the geometry, the counters and the result of every future
-    sequence of calls *)
-Lemma state_in_bytes : forall page fit b, reachable page fit b ->
+Lemma in_hidden_ge : forall bs segs buf i, In i (hidden_of_bytes bs segs buf) -> segs * (8 * bs) <= i.
+Proof.
+  intros bs segs buf i H. unfold hidden_of_bytes in H. apply filter_In in H. destruct H as [H _].
+  apply in_zrange in H. lia.
+Qed.
+
+(** reopening the bytes of ANY reachable state, also with room behind the live
+    segments (the storage was grown under the live allocator): NewBlocks fails
+    only under fit, when the size is not a whole number of segments; otherwise
+    the new allocator has size/ssz >= segments b segments, every live index
+    keeps its state (the allocated set of the live allocator is exactly the
+    part of the new set below the live count), and what is new are the marks
+    recorded behind the live segments *)
+Lemma reopen_grown : forall page fit b, reachable page fit b ->
+  (fit = true /\ bsize (bts b) mod ssz (blkSize b) <> 0 /\
+   new_blocks page (blkSize b) (bts b) fit = CtorErr EInvalid)
+  \/
+  exists b0, new_blocks page (blkSize b) (bts b) fit = CtorOk b0 /\
+    reachable page fit b0 /\ tight fit b0 /\
+    blkSize b0 = blkSize b /\ bts b0 = bts b /\
+    segments b0 = bsize (bts b) / ssz (blkSize b) /\ segments b <= segments b0 /\
+    blocks_count b <= blocks_count b0 /\
+    alloc_list b0 = alloc_list b ++ filter (fun i => i <? blocks_count b0) (hidden_list b) /\
+    (forall i, i < blocks_count b -> (In i (alloc_list b0) <-> In i (alloc_list b))) /\
+    abs b0 = fst (sp_step fit (abs b) OReopen).
+Proof.
+  intros page fit b R. pose proof (reachable_inv _ _ _ R) as I.
+  pose proof (reachable_step page fit b OReopen R) as R'.
+  destruct (step_refines page fit b OReopen I) as [_ Hs]. cbn [step] in R', Hs.
+  pose proof (inv_bs_pos _ _ _ I) as Hbs. pose proof (ssz_pos _ Hbs) as Hss.
+  pose proof (inv_segs _ _ _ I) as Hsegs. pose proof (inv_segs_fit _ _ _ I) as Hfit.
+  destruct (new_blocks_spec page (blkSize b) (bts b) fit (inv_page _ _ _ I) ltac:(nia))
+    as [[Hv [Hsz [Hf E]]]|[Hbad E]]; rewrite E in *; cbn [fst snd] in *.
+  - right. exists (opened (blkSize b) (bts b)). split; [reflexivity|]. split; [exact R'|].
+    split; [apply opened_tight; exact Hf|]. split; [reflexivity|]. split; [reflexivity|].
+    split; [reflexivity|].
+    assert (HS : segments b <= bsize (bts b) / ssz (blkSize b)) by (apply Z.div_le_lower_bound; lia).
+    split; [exact HS|].
+    assert (Hcnt : blocks_count b <= blocks_count (opened (blkSize b) (bts b))).
+    { unfold blocks_count, opened. cbn [segments blksInSegm]. rewrite (inv_bis _ _ _ I).
+      apply Z.mul_le_mono_nonneg_r; lia. }
+    split; [exact Hcnt|].
+    destruct (reopen_split (blkSize b) (segments b) (bts b) Hbs ltac:(lia) Hfit) as [H1 _]. cbv zeta in H1.
+    assert (Hal : alloc_list (opened (blkSize b) (bts b)) =
+                  alloc_list b ++ filter (fun i => i <? blocks_count (opened (blkSize b) (bts b))) (hidden_list b)).
+    { unfold alloc_list at 1. unfold opened at 1 2 3. cbn [blkSize segments bts]. rewrite H1.
+      unfold blocks_count, opened. cbn [segments blksInSegm]. reflexivity. }
+    split; [exact Hal|]. split; [|apply (f_equal fst) in Hs; symmetry; exact Hs].
+    intros i Hi. rewrite Hal, in_app_iff. split; [|auto]. intros [H|H]; [exact H|exfalso].
+    apply filter_In in H. destruct H as [H _]. apply in_hidden_ge in H.
+    unfold blocks_count in Hi. rewrite (inv_bis _ _ _ I) in Hi. lia.
+  - left. destruct Hbad as [Hn|[Hlt|[Hft Hm]]]; [exfalso; exact (Hn (inv_bs _ _ _ I))|nia|].
+    split; [exact Hft|]. split; [exact Hm|reflexivity].
+Qed.
+
+(** everything observable about a reachable state whose allocator covers the
+    storage is a function of its block size and bytes: the geometry, the
+    counters and the result of every future sequence of calls *)
+Lemma state_in_bytes : forall page fit b, reachable page fit b -> tight fit b ->
   let bs := blkSize b in let segs := bsize (bts b) / ssz bs in
   segments b = segs /\
   alloc_list b = alloc_of_bytes bs segs (bts b) /\
   blocks_count b = segs * (8 * bs) /\
   available b = segs * (8 * bs) - Z.of_nat (length (alloc_of_bytes bs segs (bts b))) /\
-  forall ops, fst (run page fit b ops) = fst (sp_run (mkSpec bs segs (alloc_of_bytes bs segs (bts b))) ops).
+  forall ops, fst (run page fit b ops) = fst (sp_run fit (spec_of_bytes bs (bts b)) ops).
 Proof.
-  intros page fit b R bs segs. pose proof (reachable_inv _ _ _ R) as I.
-  pose proof (inv_segs_eq _ _ _ I) as Hsegs. fold bs in Hsegs. fold segs in Hsegs.
+  intros page fit b R [Hsegs _] bs segs. pose proof (reachable_inv _ _ _ R) as I.
+  fold bs in Hsegs. fold segs in Hsegs.
   destruct (count_abs _ _ _ I) as [_ [Hc _]].
   split; [exact Hsegs|]. split; [unfold alloc_list; rewrite Hsegs; reflexivity|].
   split; [rewrite Hc, Hsegs; reflexivity|]. split.
   - rewrite (available_eq _ _ _ R), Hc. unfold alloc_list. rewrite Hsegs. reflexivity.
   - intros ops. destruct (run_refines page fit ops b I) as [H _]. rewrite H.
-    unfold abs, alloc_list. rewrite Hsegs. reflexivity.
+    unfold abs, spec_of_bytes, alloc_list, hidden_list. cbv zeta.
+    change ((8 * bs + 1) * bs) with (ssz bs). fold segs. rewrite Hsegs. reflexivity.
+Qed.
+
+(** in general (room behind the live segments: non-fit, or after Grow) the one
+    piece of state that is not in the bytes is the number of segments the
+    allocator was opened with: everything observable is a function of block
+    size, segment count and bytes - the hint and the counter are not state *)
+Lemma state_in_bytes_and_segments : forall page fit b, reachable page fit b ->
+  let bs := blkSize b in let segs := segments b in
+  segs * ssz bs <= bsize (bts b) /\
+  alloc_list b = alloc_of_bytes bs segs (bts b) /\
+  blocks_count b = segs * (8 * bs) /\
+  available b = segs * (8 * bs) - Z.of_nat (length (alloc_of_bytes bs segs (bts b))) /\
+  forall ops, fst (run page fit b ops) =
+              fst (sp_run fit (mkSpec bs segs (alloc_of_bytes bs segs (bts b)) (bsize (bts b))
+                                 (hidden_of_bytes bs segs (bts b))) ops).
+Proof.
+  intros page fit b R bs segs. pose proof (reachable_inv _ _ _ R) as I.
+  destruct (count_abs _ _ _ I) as [_ [Hc _]].
+  split; [exact (inv_segs_fit _ _ _ I)|]. split; [reflexivity|]. split; [exact Hc|]. split.
+  - rewrite (available_eq _ _ _ R), Hc. reflexivity.
+  - intros ops. destruct (run_refines page fit ops b I) as [H _]. exact H.
 Qed.
 
 (** * User writes *)
@@ -618,8 +766,8 @@ Qed.
 
 Lemma blocks_refine_allocset : forall page bs buf fit b0 ops,
   0 < page -> 0 <= bsize buf -> new_blocks page bs buf fit = CtorOk b0 ->
-  fst (run page fit b0 ops) = fst (sp_run (abs b0) ops) /\
-  abs (snd (run page fit b0 ops)) = snd (sp_run (abs b0) ops).
+  fst (run page fit b0 ops) = fst (sp_run fit (abs b0) ops) /\
+  abs (snd (run page fit b0 ops)) = snd (sp_run fit (abs b0) ops).
 Proof.
   intros page bs buf fit b0 ops Hp Hsz Hnew.
   destruct (new_blocks_inv _ _ _ _ _ Hp Hsz Hnew) as [_ I0].
@@ -631,29 +779,29 @@ Qed.
 Definition poke_in_range (bs : Z) (o : op) : Prop :=
   match o with OPoke _ k _ => 0 <= k < bs | _ => True end.
 
-Lemma sp_step_bs : forall s o, sp_bs (fst (sp_step s o)) = sp_bs s.
+Lemma sp_step_bs : forall fit s o, sp_bs (fst (sp_step fit s o)) = sp_bs s.
 Proof.
-  intros s o. destruct o; cbn [sp_step];
+  intros fit s o. destruct o; cbn [sp_step]; unfold sp_reopen;
     repeat match goal with |- context [if ?c then _ else _] => destruct c end; reflexivity.
 Qed.
 
-Lemma sp_run_no_panic : forall ops s,
+Lemma sp_run_no_panic : forall fit ops s,
   (forall o, In o ops -> poke_in_range (sp_bs s) o) ->
-  ~ In OutPanic (fst (sp_run s ops)) /\ ~ In OutOfFuel (fst (sp_run s ops)).
+  ~ In OutPanic (fst (sp_run fit s ops)) /\ ~ In OutOfFuel (fst (sp_run fit s ops)).
 Proof.
-  induction ops as [|o t IH]; intros s Hops; cbn [sp_run].
+  intros fit. induction ops as [|o t IH]; intros s Hops; cbn [sp_run].
   - cbn. tauto.
-  - pose proof (sp_step_bs s o) as Hbs.
-    destruct (sp_step s o) as [s' x] eqn:Est. cbn [fst] in Hbs.
+  - pose proof (sp_step_bs fit s o) as Hbs.
+    destruct (sp_step fit s o) as [s' x] eqn:Est. cbn [fst] in Hbs.
     assert (Hx : x <> OutPanic /\ x <> OutOfFuel).
     { pose proof (Hops o (or_introl eq_refl)) as Hr.
-      destruct o; cbn [sp_step poke_in_range] in Est, Hr;
+      destruct o; cbn [sp_step poke_in_range] in Est, Hr; unfold sp_reopen in Est;
         repeat match type of Est with context [if ?c then _ else _] => destruct c eqn:? end;
         injection Est as _ <-; split; try discriminate.
       exfalso. destruct (Z.ltb_spec k 0); destruct (Z.leb_spec (sp_bs s) k); cbn [orb] in *; try discriminate; lia. }
     destruct (IH s') as [H1 H2].
     { intros o' Ho'. rewrite Hbs. apply Hops. right. exact Ho'. }
-    destruct (sp_run s' t) as [xs sf]. cbn [fst] in *.
+    destruct (sp_run fit s' t) as [xs sf]. cbn [fst] in *.
     split; intros [E|Hin]; try tauto; destruct Hx; congruence.
 Qed.
 
@@ -683,7 +831,7 @@ Inductive interleaving {A : Type} : list (list A) -> list A -> Prop :=
 Lemma atomic_interleavings_sequential : forall page bs buf fit b0 (progs : list (list op)) tr,
   0 < page -> 0 <= bsize buf -> new_blocks page bs buf fit = CtorOk b0 ->
   interleaving progs tr ->
-  fst (run page fit b0 tr) = fst (sp_run (abs b0) tr) /\
+  fst (run page fit b0 tr) = fst (sp_run fit (abs b0) tr) /\
   reachable page fit (snd (run page fit b0 tr)).
 Proof.
   intros page bs buf fit b0 progs tr Hp Hsz Hnew _. split.
@@ -691,16 +839,43 @@ Proof.
   - apply reachable_run. exact (reachable_new _ _ _ _ _ Hp Hsz Hnew).
 Qed.
 
-(** reopening works after every single operation of any sequence *)
+(** reopening works after every single operation of any sequence without a
+    Grow of the storage, and gives the same set and counters *)
 Lemma reopen_after_every_prefix : forall page bs buf fit b0 ops n,
   0 < page -> 0 <= bsize buf -> new_blocks page bs buf fit = CtorOk b0 ->
+  no_grow ops = true ->
   let b := snd (run page fit b0 (firstn n ops)) in
   exists b1, new_blocks page (blkSize b) (bts b) fit = CtorOk b1 /\
     alloc_list b1 = alloc_list b /\ available b1 = available b /\ blocks_count b1 = blocks_count b.
 Proof.
+  intros page bs buf fit b0 ops n Hp Hsz Hnew Hng b.
+  assert (R : reachable page fit b).
+  { apply reachable_run. exact (reachable_new _ _ _ _ _ Hp Hsz Hnew). }
+  assert (T : tight fit b).
+  { destruct (new_blocks_inv _ _ _ _ _ Hp Hsz Hnew) as [_ I0].
+    apply run_tight; [exact I0|exact (new_blocks_tight _ _ _ _ _ Hp Hsz Hnew)|apply no_grow_firstn; exact Hng]. }
+  destruct (reopen_same page fit b R T) as [b1 [E [_ [H1 [H2 [H3 _]]]]]].
+  exists b1. auto.
+Qed.
+
+(** ... and after every single operation of ANY sequence, with Grow of the
+    storage under the live allocator: the reopen fails only under fit with a
+    size that is not a whole number of segments; otherwise every index of the
+    live allocator has the same state in the reopened one *)
+Lemma reopen_after_every_prefix_grown : forall page bs buf fit b0 ops n,
+  0 < page -> 0 <= bsize buf -> new_blocks page bs buf fit = CtorOk b0 ->
+  let b := snd (run page fit b0 (firstn n ops)) in
+  (fit = true /\ bsize (bts b) mod ssz (blkSize b) <> 0 /\
+   new_blocks page (blkSize b) (bts b) fit = CtorErr EInvalid)
+  \/
+  exists b1, new_blocks page (blkSize b) (bts b) fit = CtorOk b1 /\
+    blocks_count b <= blocks_count b1 /\
+    (forall i, i < blocks_count b -> (In i (alloc_list b1) <-> In i (alloc_list b))) /\
+    available b1 = blocks_count b1 - Z.of_nat (length (alloc_list b1)).
+Proof.
   intros page bs buf fit b0 ops n Hp Hsz Hnew b.
   assert (R : reachable page fit b).
   { apply reachable_run. exact (reachable_new _ _ _ _ _ Hp Hsz Hnew). }
-  destruct (reopen_same page fit b R) as [b1 [E [_ [H1 [H2 [H3 _]]]]]].
-  exists b1. auto.
+  destruct (reopen_grown page fit b R) as [H|[b1 [E [R1 [_ [_ [_ [_ [_ [Hc [_ [Hin _]]]]]]]]]]]]; [left; exact H|].
+  right. exists b1. split; [exact E|]. split; [exact Hc|]. split; [exact Hin|]. exact (available_eq _ _ _ R1).
 Qed.
